@@ -10,6 +10,7 @@ import (
 // that satisfies the path condition of the prefix.
 type WorkItem struct {
 	Prefix []int32
+	Fp     []uint64 // structural fingerprint of every decision of the prefix
 	Model  map[string]uint64
 	NoModel bool
 }
@@ -40,8 +41,11 @@ type Violation struct {
 // PathState is the state of the path currently being executed.
 type PathState struct {
 	prefix []int32
+	prefixFp []uint64
+	unsure   bool // the prefix ends in a branch whose feasibility the solver could not decide
 	pos    int
 	taken  []int32
+	takenFp []uint64
 	lits   []*smt.Term
 	sent   int // lits already asserted in the solver
 	model  []uint64
@@ -69,9 +73,10 @@ type PathState struct {
 }
 
 func (in *Interp) newPath(item *WorkItem) {
-	p := &PathState{prefix: item.Prefix, dom: map[int]*[4]uint64{}, multi: map[int]bool{}, covers: map[string]bool{}}
+	p := &PathState{prefix: item.Prefix, prefixFp: item.Fp, dom: map[int]*[4]uint64{}, multi: map[int]bool{}, covers: map[string]bool{}}
 	p.model = make([]uint64, len(in.C.VarsL), len(in.C.VarsL)+16)
 	p.modelOK = !item.NoModel
+	p.unsure = item.NoModel
 	for name, v := range item.Model {
 		// variables are declared lazily; keep the named model to seed them
 		_ = name
@@ -104,6 +109,25 @@ func (in *Interp) newVar(name string, w int) *smt.Term {
 		p.model[t.VarID] = v
 	}
 	return t
+}
+
+// replayStep consumes one entry of the decision prefix, checking that the
+// decision being replayed is the one that was recorded.
+func (in *Interp) replayStep(fp uint64) int32 {
+	p := in.P
+	if p.pos < len(p.prefixFp) && p.prefixFp[p.pos] != fp {
+		panic(&abortUnenc{"ENGINE: the decision sequence diverged while replaying a prefix"})
+	}
+	v := p.prefix[p.pos]
+	p.pos++
+	p.taken = append(p.taken, v)
+	p.takenFp = append(p.takenFp, fp)
+	return v
+}
+
+func (p *PathState) take(v int32, fp uint64) {
+	p.taken = append(p.taken, v)
+	p.takenFp = append(p.takenFp, fp)
 }
 
 func (in *Interp) evalBool(t *smt.Term) bool {
@@ -284,7 +308,10 @@ func (in *Interp) pushAlt(val int32, m []uint64, noModel bool) {
 	pre := make([]int32, len(p.taken)+1)
 	copy(pre, p.taken)
 	pre[len(p.taken)] = val
-	it := &WorkItem{Prefix: pre, NoModel: noModel}
+	fps := make([]uint64, len(p.takenFp)+1)
+	copy(fps, p.takenFp)
+	fps[len(p.takenFp)] = in.pendingFp
+	it := &WorkItem{Prefix: pre, Fp: fps, NoModel: noModel}
 	if m != nil {
 		it.Model = in.namedModel(m)
 	}
@@ -302,9 +329,7 @@ func (in *Interp) decide(cond *smt.Term) bool {
 		return kv
 	}
 	if p.pos < len(p.prefix) {
-		v := p.prefix[p.pos]
-		p.pos++
-		p.taken = append(p.taken, v)
+		v := in.replayStep(cond.H)
 		if v == 1 {
 			in.addLit(cond)
 		} else {
@@ -312,6 +337,7 @@ func (in *Interp) decide(cond *smt.Term) bool {
 		}
 		return v == 1
 	}
+	in.pendingFp = cond.H
 	p.newDecisions++
 	if p.newDecisions+len(p.prefix) > in.Cfg.MaxDecisions {
 		panic(&abortBound{fmt.Sprintf("more than %d decisions on one path", in.Cfg.MaxDecisions)})
@@ -323,7 +349,7 @@ func (in *Interp) decide(cond *smt.Term) bool {
 		case smt.Sat:
 			p.model, p.modelOK = m, true
 		case smt.Unsat:
-			p.taken = append(p.taken, 0)
+			p.take(0, cond.H)
 			in.addLit(c.Not(cond))
 			return false
 		default:
@@ -352,10 +378,10 @@ func (in *Interp) decide(cond *smt.Term) bool {
 		in.pushAlt(alt, nil, true)
 	}
 	if v {
-		p.taken = append(p.taken, 1)
+		p.take(1, cond.H)
 		in.addLit(cond)
 	} else {
-		p.taken = append(p.taken, 0)
+		p.take(0, cond.H)
 		in.addLit(c.Not(cond))
 	}
 	in.W.Stats.Decisions++
@@ -368,16 +394,15 @@ func (in *Interp) choose(name string, k int) int {
 	if k <= 1 {
 		return 0
 	}
+	fp := uint64(k)*0x9E3779B97F4A7C15 + 12345
 	if p.pos < len(p.prefix) {
-		v := p.prefix[p.pos]
-		p.pos++
-		p.taken = append(p.taken, v)
-		return int(v)
+		return int(in.replayStep(fp))
 	}
+	in.pendingFp = fp
 	for alt := k - 1; alt >= 1; alt-- {
 		in.pushAlt(int32(alt), p.model, !p.modelOK)
 	}
-	p.taken = append(p.taken, 0)
+	p.take(0, fp)
 	in.W.Stats.Decisions++
 	return 0
 }
@@ -412,14 +437,14 @@ func (in *Interp) assume(cond *smt.Term) {
 		panic(&abortInfeasible{})
 	}
 	p := in.P
+	fp := cond.H ^ 0x5555
 	if p.pos < len(p.prefix) {
-		p.pos++
-		p.taken = append(p.taken, 1)
+		in.replayStep(fp)
 		in.addLit(cond)
 		return
 	}
 	if p.modelOK && in.evalBool(cond) {
-		p.taken = append(p.taken, 1)
+		p.take(1, fp)
 		in.addLit(cond)
 		return
 	}
@@ -427,7 +452,7 @@ func (in *Interp) assume(cond *smt.Term) {
 	switch res {
 	case smt.Sat:
 		p.model, p.modelOK = m, true
-		p.taken = append(p.taken, 1)
+		p.take(1, fp)
 		in.addLit(cond)
 	case smt.Unsat:
 		panic(&abortInfeasible{})
@@ -496,6 +521,7 @@ func (in *Interp) assert(cond *smt.Term, id string, detail string) {
 	default:
 		p.inconclusive++
 		in.W.Stats.AssertUnknown++
+		in.W.noteUnknown(id)
 	}
 	if !p.modelOK {
 		res, m := in.feasible(cond)
